@@ -384,7 +384,16 @@ def do_replay(mod, check_id, path):
     mod.run_case(rec.case_seed, rec.tier, rec, state)
     same = [v for v in rec.violations if v["sig"] == data.get("sig")]
     print(f"replay: {len(rec.violations)} violation(s), {len(same)} with the recorded signature")
-    if rec.violations:
+    known = [k for k in load_known() if check_id in k.get("properties", []) and k.get("status") == "open"]
+    new_viol = []
+    for v in rec.violations:
+        hit = next((k for k in known if F.PREDICATES.get(k["predicate"]) and F.PREDICATES[k["predicate"]](v)), None)
+        if hit:
+            print(f"KNOWN-FINDING: property={check_id} {hit['id']} {hit['text']} sig={v['sig']}")
+        else:
+            new_viol.append(v)
+            print("NEW:", json.dumps(v, default=str)[:3000])
+    if new_viol:
         print(f"VIOLATION property={check_id} replay={path}")
         return 1
     return 0
